@@ -35,11 +35,11 @@ type propDef struct {
 // rests on; a check runs its own rules and then these (obligations keep the
 // rule ids of the property they belong to).
 var depends = map[string][]string{
-	"C01": {"C04", "C05", "C15"},
+	"C01": {"C04", "C05", "C15", "C16"},
 	"C02": {"C13", "C17"},
 	"C03": {"C02", "C13", "C17"},
-	"C04": {"C02", "C13", "C14", "C17"},
-	"C05": {"C17"},
+	"C04": {"C02", "C13", "C14", "C17", "C11"},
+	"C05": {"C17", "C02"},
 	"C06": {"C15", "C08"},
 	"C07": {},
 	"C08": {"C15"},
